@@ -28,9 +28,9 @@ CHECKS.update({
 })
 CHECKS.update({
  "C01": dict(
-   technique="bounded-exhaustive enumeration of builder-operation sequences over the program families FX/FS/FC/FA/FT, differential execution of the two real pipelines (shape E)",
-   text="Every program of the families below the operation bound is compiled and run sample by sample on the bytecode VM and on the WASM backend (the CLI's runtime path) with the same input streams, scheduler installed and not installed; accept/reject, channel counts and every output word are compared bitwise with all NaNs identified.",
-   note="Programs are the harness's families (expressions over an edge-value domain incl. NaN/inf/-0, state layout, closures, aggregates, scheduled tasks); programs above the bound and plugin-specific functions are not covered.",
+   technique="bounded-exhaustive enumeration of builder-operation sequences over the program families (expressions, state layout, closures, aggregates, tasks, numeric match, recursive variants) and of every single-token mutant of every shipped .mmm file, differential execution of the two real pipelines (shape E)",
+   text="Every program of the families below the operation bound is compiled and run sample by sample on the bytecode VM and on the WASM backend (the CLI's runtime path) with the same input streams, scheduler installed and not installed; accept/reject, channel counts and every output word are compared bitwise with all NaNs identified. A second part takes every shipped .mmm file (library, examples, test fixtures; at most 4000 bytes) under its real path, unmutated and under every single token mutation of a menu (a number literal replaced by 0.0/1.0/0.5/2.0, an arithmetic operator by each other one, a comparison by two others, && and || exchanged), and compares the two backends in the same way.",
+   note="Families: expressions over an edge-value domain incl. NaN/inf/-0, state layout, closures (incl. local letrec, stateful higher-order functions), aggregates, scheduled tasks incl. tasks whose effects do not commute, numeric match incl. repeated and fractional literals, recursive variant types in three payload shapes. Corpus mutants of files with recursion are not generated (a mutated bound makes the recursion unbounded). The quick tier runs every file unmutated and every 8th mutant of the files up to 1200 bytes. Programs above the bounds and plugin-specific functions are not covered.",
    design="4/C01"),
  "C02": dict(
    technique="bounded-exhaustive enumeration of builder-operation sequences over FX/FS/FC/FA, compared with a reference interpreter written in the harness (shape E)",
@@ -53,7 +53,7 @@ CHECKS.update({
    design="4/C06"),
  "C07": dict(
    technique="explicit-state exploration of (old program, edit, swap time) histories with compile-fault injection over the real runtimes, differential oracle against uninterrupted and fresh runs (shape S)",
-   text="Programs are fixed-arity tuples of independent stateful voices; for every old program, slot and edit (insert, delete, replace, constant change, nesting, non-compiling text) and every swap time the real runtime is driven through run / compile / hot-swap / run, and each channel is compared with the uninterrupted run of the old program (untouched sites), a fresh run started at the swap time (new sites) or the closed form of a counter (changed constant); a non-compiling edit must be rejected and change nothing.",
+   text="Programs are fixed-arity tuples of independent stateful voices; for every old program, slot and edit (insert, delete, replace, constant change, nesting, non-compiling text) and every swap time the real runtime is driven through run / compile / hot-swap / run, and each channel is compared with the uninterrupted run of the old program (untouched sites), a fresh run started at the swap time (new sites) or the closed form of a counter (changed constant); a non-compiling edit must be rejected and change nothing. Two further parts: edits inside a function reached through a chain of 1-4 stateful calls, and batch edits that remove two sites before an untouched one and insert two after it in one swap ((a, b, X) -> (X, c, d) and the mirror image), where X's channel must continue.",
    note="Any order-preserving pairing among identically written siblings is accepted. Expected values come from other runs of the same runtime, never from hand-written numbers. Recompilation and payload preparation are the CLI file runner's own (hook), except its compiler subprocess.",
    design="4/C07"),
 })
@@ -80,7 +80,7 @@ CHECKS.update({
 })
 CHECKS.update({
  "C16": dict(
-   technique="bounded-exhaustive enumeration of (program, single transformation) pairs: every identifier x every adversarial name, every expression node x {1,2,21} parentheses, layout/comment variants, every agreeing annotation; differential execution base vs transformed (shape E)",
+   technique="bounded-exhaustive enumeration of (program, single transformation) pairs: every identifier x every adversarial name, every expression node x {1,2,21} parentheses, whole-program layout/comment variants, single-gap layout deviations (a block comment at every token boundary; inside round/square brackets also a line break and a line comment), every agreeing annotation; differential execution base vs transformed (shape E)",
    text="For every program of the families below the bound, every deviation-1 renaming, parenthesisation, layout/comment change and agreeing type annotation is applied by the harness to its own AST or printed text; base and transformed program must agree on accept/reject and produce bit-identical outputs on the VM (every 16th case also on WASM).",
    note="Transformations are the harness's own; two simultaneous transformations are not explored. Annotations are added only where the builder knows the type is float.",
    design="4/C16"),
